@@ -1,132 +1,516 @@
 """C10 - FlatMap and ParameterizedObject conform to an insertion-ordered unique-key map."""
-import os, random
-from .. import tla, build, adtcheck
+import os, random, json, re, time
+import multiprocessing
+from .. import tla, build, adt, adtcheck, trace, funcheck
+from ..core import sig_of
 from ..tla import VERIF
 
 LEVEL = "model_checking"
-LEVEL_TEXT = ("TLC checks on bounded instances that the operational map specification agrees with the declarative reading of the property "
-              "(presence, uniqueness, last value, first-insertion order) after every history of mutators; every path of the specification's "
-              "complete state graph up to a budgeted length, one path per transition and seeded random walks are replayed on the real FlatMap "
-              "(4 key/value type variants) and ParameterizedObject with all observables compared after every step; random 250-step executions "
-              "of the real code over larger alphabets are validated by TLC against the trace specification")
-LEVEL_NOTE = ("bounded: 3 keys x 2 values x <=3 entries (FlatMap), 2 names x 3 types (ParameterizedObject) for exhaustive parts; "
-              "trusted: TLC, the drivers' injective mapping between model integers and concrete keys/values, g++/libstdc++")
+LEVEL_TEXT = ("TLC checks on bounded instances that the operational map / parameter-list specifications agree with the declarative reading "
+              "of the property (presence, uniqueness, last value, first-insertion order, query flag) after every history of single calls, "
+              "and that every macro action equals the iteration of the calls it stands for; every path of the specifications' complete "
+              "state graphs up to a budgeted length, one path per transition and seeded random walks are replayed on the real FlatMap "
+              "(7 key/value type variants, concrete keys at type extremes / with NUL and high bytes / equal up to a prefix) and "
+              "ParameterizedObject (15 value types, 5 name maps), also interleaved with calls on an unrelated instance, with all observables compared "
+              "after every step; TLC-emitted histories "
+              "across the sizes 2^7..2^16 +-1 and random 250-step executions of the real code are validated by TLC against the trace "
+              "specifications")
+LEVEL_NOTE = ("bounded: 3 keys x 2 values x <=3 entries (FlatMap; 2 keys and two maps for whole-map operations), 2 names x 3 types "
+              "(ParameterizedObject) for exhaustive parts; trusted: TLC, the drivers' injective mapping between model integers and concrete "
+              "keys/values/names, g++/libstdc++")
 TECHNIQUE = "TLA+ ADT specification + TLC; state-graph histories replayed on the real objects; TLC trace validation of recorded executions"
 SPEC = os.path.join(VERIF, "spec", "containers")
-MUT_MAP = {"Put", "AtAssign", "GetOrInsert", "Erase", "Clear"}
-MUT_PO = {"SetParam", "GetParam", "RemoveParam", "ResetQuery"}
+MUT_MAP = {"Put", "AtAssign", "GetOrInsert", "Erase", "EraseAt", "Clear", "AtIndexAssign", "IterAssign", "CopyFrom", "MoveCtor", "MoveAssign",
+           "Swap", "Put2", "Erase2", "Clear2", "CopyTo", "CopyCtor", "PutRange", "EraseEvery"}
+MUT_PO = {"SetParam", "GetParam", "RemoveParam", "ResetQuery", "RemoveParamAt", "SetParamFrom", "FindOrAdd", "SetRange", "GetRange", "RemoveEvery"}
+WHOLE = {"CopyTo", "CopyFrom", "CopyCtor", "MoveCtor", "MoveAssign", "SelfAssign", "Swap"}
+
+# concrete key / value maps of the FlatMap driver per type variant, concrete name maps of the ParameterizedObject driver
+KEYMAPS = {"ii": [1, 2, 3, 4], "ss": [1, 2, 3, 4], "si": [1, 2], "is": [1, 4], "Li": [1, 2, 3]}
+KEYMAPS_QUICK = {"ii": [1, 3], "ss": [1, 2, 3, 4], "si": [1], "is": [4], "Li": [1]}
+NAMEMAPS = [1, 2, 3, 4]
+PO_TYPES = ["int", "uint", "i64", "short", "char", "float", "double", "bool", "str", "cstr", "ptr", "vec3f", "vec3i", "vec2f", "thr"]
 
 
-def rand_map_actions(rnd, n, nkeys=10, nvals=5):
+# ---------------------------------------------------------------------------
+# seeded random executions (inputs only: what they return is validated by TLC)
+# ---------------------------------------------------------------------------
+def rand_map_actions(rnd, n, nkeys=10, nvals=5, throwing=False, whole=True, cidx=False):
     acts = []
-    size_hint = 0
     for _ in range(n):
         x = rnd.random()
-        k = rnd.randint(1, nkeys)
+        k = rnd.randint(0, nkeys - 1)
         v = rnd.randint(1, nvals)
-        if x < 0.30: a = {"a": "Put", "arg": {"k": k, "v": v}}
-        elif x < 0.38: a = {"a": "GetOrInsert", "arg": {"k": k}}
-        elif x < 0.46: a = {"a": "AtAssign", "arg": {"k": k, "v": v}}
-        elif x < 0.56: a = {"a": "At", "arg": {"k": k}}
-        elif x < 0.64: a = {"a": "Contains", "arg": {"k": k}}
-        elif x < 0.80: a = {"a": "Erase", "arg": {"k": k}}
-        elif x < 0.82: a = {"a": "Clear", "arg": []}
-        elif x < 0.88: a = {"a": "AtIndex", "arg": {"i": rnd.randint(0, nkeys)}}
-        elif x < 0.92: a = {"a": "IterRev", "arg": []}
-        elif x < 0.96: a = {"a": "IterConst", "arg": []}
-        else: a = {"a": "Reserve", "arg": {"n": rnd.choice([0, 7, 100])}}
+        if x < 0.22: a = {"a": "Put", "arg": {"k": k, "v": v}}
+        elif x < 0.28: a = {"a": "GetOrInsert", "arg": {"k": k}}
+        elif x < 0.33: a = {"a": "AtAssign", "arg": {"k": k, "v": v}}
+        elif x < 0.40: a = {"a": "At", "arg": {"k": k}}
+        elif x < 0.45: a = {"a": "Contains", "arg": {"k": k}}
+        elif x < 0.54: a = {"a": "Erase", "arg": {"k": k}}
+        elif x < 0.62: a = {"a": "EraseAt", "arg": {"i": rnd.randint(0, nkeys - 1)}}
+        elif x < 0.635: a = {"a": "Clear", "arg": []}
+        elif x < 0.68: a = {"a": "AtIndex", "arg": {"i": rnd.randint(0, nkeys)}}
+        elif x < 0.71: a = {"a": "AtIndexAssign", "arg": {"i": rnd.randint(0, nkeys), "v": v}}
+        elif x < 0.74: a = {"a": "IterAssign", "arg": {"i": rnd.randint(0, nkeys), "v": v}}
+        elif x < 0.77: a = {"a": "IterRev", "arg": []}
+        elif x < 0.80: a = {"a": "IterConst", "arg": []}
+        elif x < 0.82: a = {"a": "Reserve", "arg": {"n": rnd.choice([0, 1, 7, 100])}}
+        elif x < 0.86:
+            a = {"a": "InsertThrows", "arg": {"k": k, "w": rnd.choice(["key", "val"])}} if throwing else {"a": "Contains", "arg": {"k": k}}
+        elif x < 0.89:
+            a = {"a": "ConstIndex", "arg": {"k": k}} if cidx else {"a": "At", "arg": {"k": k}}
+        elif not whole: a = {"a": "Put", "arg": {"k": k, "v": v}}
+        elif x < 0.93: a = {"a": "Put2", "arg": {"k": k, "v": v}}
+        elif x < 0.95: a = {"a": "Erase2", "arg": {"k": k}}
+        else: a = {"a": rnd.choice(["CopyTo", "CopyFrom", "CopyCtor", "MoveCtor", "MoveAssign", "SelfAssign", "Swap", "Clear2"]), "arg": []}
         acts.append(a)
     return acts
 
 
-def rand_po_actions(rnd, n, nnames=6, nvals=5):
-    types = ["int", "float", "str", "bool"]
+def rand_po_actions(rnd, n, nnames=6, nvals=5, types=None):
+    types = types or PO_TYPES
     acts = []
     for _ in range(n):
         x = rnd.random()
         nm = rnd.randint(1, nnames)
         t = rnd.choice(types)
-        if x < 0.35: a = {"a": "SetParam", "arg": {"n": nm, "t": t, "v": rnd.randint(1, 2 if t == "bool" else nvals)}}
-        elif x < 0.70: a = {"a": "GetParam", "arg": {"n": nm, "t": t, "d": 99}}
-        elif x < 0.80: a = {"a": "HasParam", "arg": {"n": nm}}
-        elif x < 0.93: a = {"a": "RemoveParam", "arg": {"n": nm}}
+        if x < 0.30: a = {"a": "SetParam", "arg": {"n": nm, "t": t, "v": rnd.randint(1, 2 if t == "bool" else nvals)}}
+        elif x < 0.60: a = {"a": "GetParam", "arg": {"n": nm, "t": t, "d": 99}}
+        elif x < 0.66: a = {"a": "HasParam", "arg": {"n": nm}}
+        elif x < 0.74: a = {"a": "RemoveParam", "arg": {"n": nm}}
+        elif x < 0.80: a = {"a": "RemoveParamAt", "arg": {"i": rnd.randint(0, nnames - 1)}}
+        elif x < 0.87: a = {"a": "SetParamFrom", "arg": {"n": nm, "n2": rnd.randint(1, nnames)}}
+        elif x < 0.90: a = {"a": "FindOrAdd", "arg": {"n": nm}}
+        elif x < 0.95: a = {"a": "SetParamThrows", "arg": {"n": nm}}
         else: a = {"a": "ResetQuery", "arg": []}
         acts.append(a)
     return acts
+
+
+def cls_of_event(ev):
+    """Input class of a recorded event for the signature of a trace rejection (derived from the arguments only)."""
+    a, arg = ev.get("during") or ev.get("a"), ev.get("arg") or {}
+    if not isinstance(arg, dict):
+        return None
+    if a in ("EraseEvery", "RemoveEvery"):
+        return arg.get("how")
+    if a in ("PutRange", "SetRange", "GetRange"):
+        return "n=%s" % arg.get("n")
+    if a in ("EraseAt", "RemoveParamAt"):
+        return "stored-object"
+    if a == "InsertThrows":
+        return arg.get("w")
+    return None
+
+
+# ---------------------------------------------------------------------------
+# jobs run in forked children (TLC runs, driver runs, trace validations are independent of one another);
+# the parent only collects: every verdict is still TLC's / the comparison of TLC's values with the driver's
+# ---------------------------------------------------------------------------
+_JOBS = []
+
+
+def _run_job(i):
+    kind, a = _JOBS[i]
+    try:
+        if kind == "mc":
+            spec_dir, module, cfg, workers = a
+            return ("mc", tla.run_tlc(os.path.join(spec_dir, module + ".tla"), os.path.join(spec_dir, cfg), workers=workers, timeout=2400))
+        if kind == "gen":
+            module, cfg, tag = a
+            ag, r = adt.build_graph(os.path.join(SPEC, module + ".tla"), os.path.join(SPEC, cfg), tag=tag, workers=4)
+            return ("gen", ag, r)
+        if kind == "replay":
+            exe, hs, tag, meta, isolate = a
+            res, rc, stderr, wall = adt.run_driver(exe, hs, tag, isolate=isolate, meta=meta, timeout=2400)
+            if rc not in (0,) and not res:
+                return ("infra", "driver %s produced nothing (rc=%s): %s" % (exe, rc, stderr[-2000:]))
+            return ("replay", adt.compare(hs, res, rc, stderr), rc, stderr[-3000:], wall)
+        if kind == "cases":
+            module, cfg, tag = a
+            d = os.path.join(tla.WORK, "cases", tag)
+            os.makedirs(d, exist_ok=True)
+            out = os.path.join(d, "cases-%d" % os.getpid())
+            r = tla.run_tlc(os.path.join(SPEC, module + ".tla"), os.path.join(SPEC, cfg), workers=1, timeout=1500, env={"OUT": out}, tag=tag)
+            if not r.ok or not os.path.exists(out):
+                return ("infra", "case-generation module %s failed: violated=%s error=%s\n%s" % (module, r.violated, r.error, r.out[-2500:]))
+            cases = [json.loads(ln) for ln in open(out) if ln.strip()]
+            os.remove(out)
+            return ("cases", cases, r)
+        if kind == "trace":
+            # several driver runs (type variants ...) whose recorded executions are validated by ONE TLC run of the trace specification
+            module, cfg, subs, gtag = a
+            execs, owner, wall, left = [], [], 0.0, 0
+            for si, (exe, actions, tag, meta) in enumerate(subs):
+                res, rc, stderr, w = adt.run_driver(exe, actions, tag + "-rec", isolate=1, meta=meta, timeout=2400)
+                wall += w
+                for j, acts in enumerate(actions):
+                    r = res.get(j)
+                    if r is None:
+                        return ("infra", "driver %s gave no result for recorded execution %d of %s (rc=%s): %s" % (exe, j, tag, rc, stderr[-1500:]))
+                    if "crash" in r or "timeout" in r:
+                        kd = "crash" if "crash" in r else "timeout"
+                        k = r[kd].get("step", 0)
+                        ok = 0 <= k < len(acts)
+                        ev = [{"a": kd, "arg": acts[k].get("arg") if ok else None, "during": acts[k]["a"] if ok else None, "obs": r[kd]}]
+                    else:
+                        ev = [{"a": st["a"], "arg": st.get("arg", []), "obs": o} for st, o in zip(acts, r["obs"])]
+                    execs.append(ev)
+                    owner.append((si, j))
+                    # value-less parameters left behind by a failed setParam (observation for a note, no verdict)
+                    for e in ev:
+                        if e["a"] == "SetParamThrows" and isinstance(e["obs"], dict):
+                            if any(isinstance(row, list) and row[0] == e["arg"]["n"] and row[1] == "none" for row in e["obs"].get("params", [])):
+                                left += 1
+            acc, rej, stats = trace.validate(os.path.join(SPEC, module + ".tla"), os.path.join(SPEC, cfg), execs, gtag, workers=1, timeout=2400,
+                                             max_rejections=8)
+            nev = [0] * len(subs)
+            for (si, _), ev in zip(owner, execs):
+                nev[si] += len(ev)
+            rejs = [{"sub": owner[rj["exec"]][0], "exec": owner[rj["exec"]][1], "line": rj["line"], "event": rj["event"],
+                     "events": execs[rj["exec"]]} for rj in rej]
+            return ("trace", len(execs), rejs, stats, wall, left, nev)
+    except tla.InfraError as e:
+        return ("infra", str(e))
+    return ("infra", "unknown job kind " + kind)
+
+
+def _run_one(job):
+    global _JOBS
+    _JOBS = [job]
+    try:
+        return _run_job(0)
+    finally:
+        _JOBS = []
+
+
+def _child_init():
+    # many JVMs run side by side: keep each one's collector small
+    os.environ["_JAVA_OPTIONS"] = "-XX:ParallelGCThreads=3"
+
+
+def run_jobs(jobs, procs):
+    """jobs: list of (kind, args); returns results in order.  Children are forked, so the (large) inputs are not copied."""
+    global _JOBS
+    _JOBS = jobs
+    if not jobs:
+        return []
+    ctx = multiprocessing.get_context("fork")
+    with ctx.Pool(processes=min(procs, len(jobs)), initializer=_child_init) as pool:
+        out = pool.map(_run_job, range(len(jobs)), chunksize=1)
+    _JOBS = []
+    for r in out:
+        if r[0] == "infra":
+            raise tla.InfraError(r[1])
+    return out
+
+
+def checked(r):
+    if r[0] == "infra":
+        raise tla.InfraError(r[1])
+    return r
+
+
+def report_replay(chk, histories, result, tag, sig_prefix, meta):
+    """The reporting half of adtcheck.replay for a driver run made in a child."""
+    _, mms, rc, stderr, wall = result
+    for mm in mms:
+        if mm["kind"] == "missing":
+            if "Sanitizer" in stderr or "runtime error" in stderr:
+                mm["kind"] = "crash"
+                mm["field"] = "crash"
+                h = histories[mm["case"]]
+                mm["action"] = h[-1]["a"] if h else None
+            else:
+                raise tla.InfraError("driver stopped without result for case %d of %s (rc=%s): %s" % (mm["case"], tag, rc, stderr[-1500:]))
+        h = histories[mm["case"]]
+        what = "%s: step %d %s(%s): %s expected %s observed %s" % (
+            sig_prefix, mm["step"], mm.get("action"), json.dumps(mm.get("arg")), mm["field"],
+            json.dumps(mm.get("expected"))[:300], json.dumps(mm.get("observed"))[:300])
+        rep = {"kind": "history", "property": chk.pid, "tag": tag, "sig_prefix": sig_prefix, "meta": meta, "history": h,
+               "mismatch": {k: v for k, v in mm.items() if k != "stderr"}, "info": {}}
+        if mm.get("stderr"):
+            rep["stderr_tail"] = mm["stderr"][-2500:]
+        chk.violation(sig_of(sig_prefix, mm), what, rep)
+    chk.cov["evaluations"] += len(histories)
+    chk.log("%s: %d histories replayed (%d mismatching) in %.1fs" % (sig_prefix, len(histories), len(mms), wall))
+    return len(mms)
+
+
+def report_trace(chk, subs, result, module):
+    """subs: list of (actions, tag, sig_prefix, meta) in the order given to the job."""
+    _, nexecs, rejs, stats, wall, left, nev = result
+    chk.cov["traces_validated_against_impl"] += nexecs
+    chk.cov.setdefault("trace_events_validated", 0)
+    chk.cov["trace_events_validated"] += stats["events"]
+    chk.log("trace validation %s: %d executions (%s), %d rejected, %d events, %d TLC run(s), drivers %.1fs + TLC %.1fs"
+            % (module, nexecs, ", ".join("%s: %d" % (s[1], len(s[0])) for s in subs), len(rejs), stats["events"], stats["tlc_runs"], wall, stats["wall"]))
+    for rj in rejs:
+        actions, tag, sig_prefix, meta = subs[rj["sub"]]
+        ev = rj["event"]
+        mm = {"action": ev.get("during") or ev.get("a"), "cls": cls_of_event(ev),
+              "field": "trace-rejected" if ev.get("a") not in ("crash", "timeout") else ev["a"]}
+        what = "%s: recorded execution %d of %s rejected by %s at event %d: %s" % (sig_prefix, rj["exec"], tag, module, rj["line"], json.dumps(ev)[:400])
+        events = rj["events"]
+        rep = {"kind": "trace", "property": chk.pid, "tag": tag, "sig_prefix": sig_prefix, "meta": meta, "module": module,
+               "actions": actions[rj["exec"]], "events": events if len(json.dumps(events)) < 400000 else events[:rj["line"] + 1][-3:],
+               "rejected_at": rj["line"]}
+        chk.violation(sig_of(sig_prefix, mm), what, rep)
+    return left
+
+
+def histories_of(ag, budget, kmax, walks, walk_len, seed):
+    K = 1
+    while K < kmax and adt.count_paths(ag, K + 1) <= budget:
+        K += 1
+    allp = adt.all_paths(ag, K, budget * 2) or []
+    cover = adt.edge_cover(ag)
+    rw = adt.random_walks(ag, walks, walk_len, seed)
+    info = {"abstract_states": len(ag.states), "abstract_transitions": ag.nedges, "all_histories_len": K if allp else 0,
+            "all_histories": len(allp), "transition_cover": len(cover), "random_walks": len(rw), "walk_len": walk_len}
+    return allp, cover, rw, info
+
+
+def count_classes(chk, histories, key):
+    cc = chk.cov.setdefault(key, {})
+    for h in histories:
+        for st in h:
+            if st.get("cls") is not None:
+                c = "%s(%s)" % (st["a"], st["cls"])
+                cc[c] = cc.get(c, 0) + 1
+
+
+def require_classes(chk, key, names):
+    missing = [n for n in names if not chk.cov.get(key, {}).get(n)]
+    if missing:
+        raise tla.InfraError("vacuity guard: input classes never exercised: %s" % missing)
+
+
+def without(histories, names):
+    return [h for h in histories if not any(st["a"] in names for st in h)]
+
+
+def build_map_driver(chk):
+    """The FlatMap driver; with FlatMap::operator[] const instantiated if that compiles on this tree."""
+    try:
+        exe = build.build("drv_ordered_map", extra_defs=["ORDERED_MAP_PROBE_CONST_INDEX=ON"])
+        chk.cov["flatmap_const_index_instantiable"] = True
+        return exe, True
+    except build.BuildFailed as e:
+        m = re.search(r"FlatMap\.h:(\d+):\d+: error: ([^\n]*)", str(e))
+        chk.cov["flatmap_const_index_instantiable"] = False
+        chk.note("FlatMap<K,V>::operator[](const K&) const cannot be instantiated on this tree (%s): its steps (ConstIndex) are not "
+                 "evaluated - the probe build with -DORDERED_MAP_PROBE_CONST_INDEX fails, the build without it succeeds"
+                 % (("FlatMap.h:%s: %s" % (m.group(1), m.group(2)[:160])) if m else "compile error"))
+        return build.build("drv_ordered_map"), False
 
 
 def run(chk, replay=None):
     quick = chk.tier == "quick"
     rnd = random.Random(chk.seed)
     chk.assumptions += [
-        "TLC explores the bounded instances completely (3 keys x 2 values, <= 3 entries; 2 names x 3 types x 2 values)",
-        "drivers map model integers to concrete int / std::string keys and values; the mapping is injective",
-        "recorded random histories use 10 keys / 6 names; longer histories or larger alphabets are not explored",
+        "TLC explores the bounded instances completely (3 keys x 2 values, <= 3 entries; two maps over 2 keys; 2 names x 3 types x 2 values)",
+        "drivers map model integers to concrete keys / values / names (int, int64, std::string, move-only and throwing types; 15 parameter "
+        "types); every map is injective on the integers used with it",
+        "recorded random histories use 10 keys / 6 names; size boundaries are crossed by TLC-emitted histories with formula-defined content "
+        "(2^7, 2^8, 2^9, 2^10, 2^12 +-1 entries; 2^16 +-1 for FlatMap<int,int>, thorough tier); other sizes are not explored",
+        "a failed setParam (the value's copy constructor throws) may or may not leave a value-less parameter under a NEW name: the statement "
+        "does not decide it, both are accepted",
     ]
     if replay:
         return do_replay(chk, replay)
-    # 1. design level: the operational map agrees with the declarative reading of the property
-    adtcheck.model_check(chk, SPEC, "OrderedMapMC", "OrderedMapMC.cfg" if quick else "OrderedMapMC_thorough.cfg",
-                         what="all histories of mutators up to K: m = RefSeq(hist), unique keys")
-    adtcheck.model_check(chk, SPEC, "ParamObject", "ParamObject.cfg", what="query flag action properties")
-
-    # 2./3. spec -> code
-    exe = build.build("drv_ordered_map")
-    budget = 40000 if quick else 1300000
-    hs, info, ag = adtcheck.gen_histories(chk, SPEC, "OrderedMap", "OrderedMapGen.cfg", budget, 6,
-                                          walks=2000 if quick else 20000, walk_len=40, seed=chk.seed, mutators=MUT_MAP, tag="c10-map")
-    chk.count_actions(hs)
-    chk.require_actions(["Put", "AtAssign", "GetOrInsert", "At", "Contains", "Erase", "Clear", "AtIndex", "IterRev", "IterConst"])
-    chk.cov["generation_FlatMap"] = info
-    # thorough: the full budget (all histories of length 4) on the <int,int> variant, the quick budget on the other three
-    hs_small = hs
-    if not quick:
-        hs_small, _, _ = adtcheck.gen_histories(chk, SPEC, "OrderedMap", "OrderedMapGen.cfg", 40000, 6, walks=20000, walk_len=40,
-                                                seed=chk.seed + 7, mutators=MUT_MAP, tag="c10-map-small")
-    for variant in ["ii", "ss", "si", "is"]:
-        hv = hs if variant == "ii" else hs_small
-        n, wall = adtcheck.replay(chk, exe, hv, "c10-map-" + variant, "FlatMap<%s>" % variant, meta={"variant": variant}, isolate=500)
-        chk.log("FlatMap<%s>: %d histories replayed (%d mismatching) in %.1fs" % (variant, len(hv), n, wall))
-        chk.cov["distinct_nontrivial"] += adtcheck._nontrivial_distinct(hv, MUT_MAP) if not quick else 0
-    if quick:
-        chk.cov["distinct_nontrivial"] += 4 * adtcheck._nontrivial_distinct(hs, MUT_MAP)
-    chk.add_sample({"kind": "history", "object": "FlatMap", "steps": hs[len(hs) // 2]})
-
+    procs = 8 if quick else 10
+    exe, cidx = build_map_driver(chk)
     exe2 = build.build("drv_param_object")
-    hs2, info2, ag2 = adtcheck.gen_histories(chk, SPEC, "ParamObject", "ParamObject.cfg", budget, 6,
-                                             walks=2000 if quick else 20000, walk_len=40, seed=chk.seed + 1, mutators=MUT_PO, tag="c10-po")
-    chk.count_actions(hs2)
-    chk.require_actions(["SetParam", "GetParam", "HasParam", "RemoveParam", "ResetQuery"])
-    chk.cov["generation_ParameterizedObject"] = info2
-    n, wall = adtcheck.replay(chk, exe2, hs2, "c10-po", "ParameterizedObject", isolate=500)
-    chk.log("ParameterizedObject: %d histories replayed (%d mismatching) in %.1fs" % (len(hs2), n, wall))
-    chk.cov["distinct_nontrivial"] += adtcheck._nontrivial_distinct(hs2, MUT_PO)
-    chk.add_sample({"kind": "history", "object": "ParameterizedObject", "steps": hs2[len(hs2) // 3]})
 
-    # 4. code -> spec
-    nexec = 20 if quick else 200
-    for variant in ["ii", "ss"]:
-        acts = [rand_map_actions(rnd, 250) for _ in range(nexec)]
-        adtcheck.record_and_validate(chk, exe, SPEC, "OrderedMapTrace", "OrderedMapTrace.cfg", acts, "c10-map-" + variant,
-                                     "FlatMap<%s>" % variant, meta={"variant": variant}, isolate=1)
-    acts = [rand_po_actions(rnd, 250) for _ in range(nexec)]
-    adtcheck.record_and_validate(chk, exe2, SPEC, "ParamObjectTrace", "ParamObjectTrace.cfg", acts, "c10-po", "ParameterizedObject", isolate=1)
-    chk.add_sample({"kind": "recorded-trace-prefix", "object": "ParameterizedObject", "actions": acts[0][:6]})
+    # ---- stage 1 (children, asynchronous): design level = TLC on the specifications themselves; state graphs of the generation
+    #      instances; TLC-emitted histories across size boundaries.  The model-checking results are collected at the very end.
+    mcs = [("OrderedMapMC", "OrderedMapMC.cfg" if quick else "OrderedMapMC_thorough.cfg",
+            "all histories of single calls up to K steps (incl. removal through the stored key, writes through at_index / iterators, failed "
+            "insertions): m = RefSeq(hist), unique keys"),
+           ("OrderedMapMC", "OrderedMapMC_macro.cfg" if quick else "OrderedMapMC_macro_thorough.cfg",
+            "macro actions PutRange / EraseEvery = iteration of the single calls; m = RefSeq(expanded history)"),
+           ("ParamObjectMC", "ParamObjectMC.cfg" if quick else "ParamObjectMC_thorough.cfg",
+            "all histories up to K steps: ps = RefSeq(hist) (presence, order, last type/value, queried iff exact-type read since creation and reset)"),
+           ("ParamObjectMC", "ParamObjectMC_macro.cfg" if quick else "ParamObjectMC_macro_thorough.cfg",
+            "macro actions SetRange / GetRange / RemoveEvery = iteration of the single calls")]
+    # (quick: the other parameter types - signed / unsigned / wide, vectors with equal-length type names, pointers - come in
+    #  through the recorded random executions, which draw from all 15 types)
+    po_cfgs = ["ParamObject.cfg"] + ([] if quick else ["ParamObjectGen_near.cfg", "ParamObjectGen_num.cfg", "ParamObjectGen_ptr.cfg"])
+    gens = [("OrderedMap", "OrderedMapGen.cfg", "c10-map"), ("OrderedMap", "OrderedMapGen2.cfg", "c10-map2")] + \
+           [("ParamObject", c, "c10-po-" + c.replace(".cfg", "")) for c in po_cfgs]
+    casegens = [("OrderedMapBigGen", "OrderedMapBigGen.cfg" if quick else "OrderedMapBigGen_thorough.cfg", "c10-big", "histories across size boundaries (macro actions)"),
+                ("ParamObjectBigGen", "ParamObjectBigGen.cfg" if quick else "ParamObjectBigGen_thorough.cfg", "c10-bigpo", "parameter lists across size boundaries (macro actions)")]
+    if not quick:
+        casegens.append(("OrderedMapBigGen", "OrderedMapBigGen_huge.cfg", "c10-huge", "2^16 +- 1 entries"))
+    ctx = multiprocessing.get_context("fork")
+    pool1 = ctx.Pool(processes=procs, initializer=_child_init)
+    try:
+        f_gen = [pool1.apply_async(_run_one, (("gen", g),)) for g in gens]
+        f_case = [pool1.apply_async(_run_one, (("cases", c[:3]),)) for c in casegens]
+        f_mc = [pool1.apply_async(_run_one, (("mc", (SPEC, m, c, 3 if quick else 5)),)) for m, c, _ in mcs]
+        graphs = {}
+        for g, f in zip(gens, f_gen):
+            r = checked(f.get())
+            graphs[g[2]] = r[1]
+            # (ParamObject.cfg carries the action properties QueryOnlyByExactRead / QueryUntilReset: this run checks them)
+            chk.add_model(g[0] + "/" + g[1], r[2], "generation instance: %d abstract states, %d abstract transitions" % (len(r[1].states), r[1].nedges))
+        cases = {}
+        for c, f in zip(casegens, f_case):
+            r = checked(f.get())
+            cases[c[2]] = r[1]
+            chk.cov["models"].append({"module": c[0] + "/" + c[1], "cases_emitted": len(r[1]), "distinct_states": r[2].distinct,
+                                      "states_generated": r[2].generated, "wall_s": round(r[2].wall, 1), "what": c[3]})
+            chk.log("TLC %s/%s: laws checked, %d histories emitted in %.1fs (%s)" % (c[0], c[1], len(r[1]), r[2].wall, c[3]))
+        run_rest(chk, quick, rnd, procs, exe, exe2, cidx, graphs, cases, po_cfgs)
+        for (m, c, what), f in zip(mcs, f_mc):
+            chk.require_model_ok(m + "/" + c, checked(f.get())[1], what)
+    finally:
+        pool1.terminate()
+        pool1.join()
+
+
+def run_rest(chk, quick, rnd, procs, exe, exe2, cidx, graphs, cases, po_cfgs):
+    # ---- stage 2: histories from the state graphs --------------------------------------------------------------------------------
+    budget = 50000
+    allp, cover, rw, info = histories_of(graphs["c10-map"], budget, 6, 2000 if quick else 30000, 40, chk.seed)
+    hs = allp + cover + rw
+    hs_light = cover + rw[:2000]
+    chk.cov["generation_FlatMap"] = info
+    allp2, cover2, rw2, info2 = histories_of(graphs["c10-map2"], 12000 if quick else 400000, 4, 1500 if quick else 10000, 40, chk.seed + 3)
+    hs2 = allp2 + cover2 + rw2
+    if not cidx:
+        hs2 = without(hs2, {"ConstIndex"})
+    chk.cov["generation_FlatMap_two_maps"] = info2
+    chk.count_actions(hs)
+    chk.count_actions(hs2)
+    chk.require_actions(["Put", "AtAssign", "GetOrInsert", "At", "Contains", "Erase", "EraseAt", "Clear", "AtIndex", "IterRev", "IterConst",
+                         "AtIndexAssign", "IterAssign", "InsertThrows", "CopyTo", "CopyFrom", "CopyCtor", "MoveCtor", "MoveAssign", "SelfAssign",
+                         "Swap", "Put2", "Erase2", "Clear2"] + (["ConstIndex"] if cidx else []))
+    count_classes(chk, hs + hs2, "input_classes")
+    require_classes(chk, "input_classes", ["EraseAt(key=stored-object,last-entry)", "EraseAt(key=stored-object,next-key=0)",
+                                           "EraseAt(key=stored-object,next-key=other)", "EraseAt(beyond-the-end)", "InsertThrows(key)", "InsertThrows(val)"])
+    hs_po = {}
+    for c in po_cfgs:
+        a, cv, w, inf = histories_of(graphs["c10-po-" + c.replace(".cfg", "")], 40000 if c == "ParamObject.cfg" or not quick else 3000, 6,
+                                     2000 if quick else 10000, 40, chk.seed + 1)
+        hs_po[c] = (a + cv + w, cv + w[:2000])
+        chk.cov["generation_ParameterizedObject" + ("" if c == "ParamObject.cfg" else "_" + c.replace("ParamObjectGen_", "").replace(".cfg", ""))] = inf
+        chk.count_actions(hs_po[c][0])
+        count_classes(chk, hs_po[c][0], "input_classes")
+    chk.require_actions(["SetParam", "GetParam", "HasParam", "RemoveParam", "ResetQuery", "RemoveParamAt", "SetParamFrom", "FindOrAdd"])
+    require_classes(chk, "input_classes", ["RemoveParamAt(name=stored-object,not-last)", "SetParamFrom(own-value)", "SetParamFrom(value-of-other,new)"])
+
+    big, huge, bigpo = cases["c10-big"], cases.get("c10-huge", []), cases["c10-bigpo"]
+    chk.count_actions([c["h"] for c in big + huge + bigpo])
+    chk.require_actions(["PutRange", "EraseEvery", "SetRange", "GetRange", "RemoveEvery"])
+    chk.cov["size_boundaries"] = {"FlatMap": sorted({c["cls"] for c in big + huge}), "ParameterizedObject": sorted({c["cls"] for c in bigpo})}
+    need = {255, 256, 257} | (set() if quick else {65535, 65536, 65537})
+    if not need <= set(chk.cov["size_boundaries"]["FlatMap"]) or not {255, 256, 257} <= set(chk.cov["size_boundaries"]["ParameterizedObject"]):
+        raise tla.InfraError("vacuity guard: size boundaries missing: %s" % chk.cov["size_boundaries"])
+
+    # ---- stage 3 (children): spec -> code replays and code -> spec trace validations, all independent -------------------------------
+    jobs, meta_of = [], []
+
+    def add_replay(e, histories, tag, prefix, meta, mut):
+        jobs.append(("replay", (e, histories, tag, meta, 500)))
+        meta_of.append(("replay", histories, tag, prefix, meta, mut))
+
+    def add_trace(module, subs, gtag):
+        """subs: list of (exe, actions, tag, prefix, meta)"""
+        jobs.append(("trace", (module, module + ".cfg", [(e, acts, tag, meta) for e, acts, tag, prefix, meta in subs], gtag)))
+        meta_of.append(("trace", [(acts, tag, prefix, meta) for e, acts, tag, prefix, meta in subs], module))
+
+    # the long jobs first
+    if huge:
+        # (every step on 2^16 entries costs TLC a few tenths of a second: all shapes at 2^16, the first shape at 2^16 +- 1)
+        add_trace("OrderedMapTrace", [(exe, [c["h"] for c in huge if c["cls"] == 65536 or c["shape"] == 1], "c10-huge-ii", "FlatMap<ii>", {"variant": "ii"})],
+                  "c10-huge")
+    for v in ["ii", "ss", "si", "is"]:
+        if quick:
+            hv = hs if v in ("ii", "ss") else hs_light
+        else:
+            hv = hs if v == "ii" else allp + cover + rw[:10000]
+        add_replay(exe, hv, "c10-map-" + v, "FlatMap<%s>" % v, {"variant": v}, MUT_MAP)
+    for c in po_cfgs:
+        add_replay(exe2, hs_po[c][0], "c10-po-" + c.replace(".cfg", ""), "ParameterizedObject", {}, MUT_PO)
+
+    bigacts = [c["h"] for c in big]
+    add_trace("OrderedMapTrace", [(exe, bigacts if v != "iu" else [c["h"] for c in big if c["shape"] != 5], "c10-big-" + v, "FlatMap<%s>" % v, {"variant": v})
+                                  for v in ["ii", "ss", "si", "is", "Li", "tt", "iu"]], "c10-big")
+    nexec = 20 if quick else 150
+    po_acts = [rand_po_actions(rnd, 250) for _ in range(nexec)]
+    add_trace("ParamObjectTrace", [(exe2, [c["h"] for c in bigpo], "c10-bigpo", "ParameterizedObject", {}),
+                                   (exe2, po_acts, "c10-po", "ParameterizedObject", {})] +
+                                  [(exe2, [rand_po_actions(rnd, 250, nnames=4) for _ in range(nexec // 2)], "c10-po-nm%d" % nm,
+                                    "ParameterizedObject<namemap=%d>" % nm, {"namemap": nm}) for nm in [1, 2]], "c10-po")
+    for grp in [["ii", "ss"], ["tt", "iu"]]:
+        add_trace("OrderedMapTrace", [(exe, [rand_map_actions(rnd, 250, throwing=(v == "tt"), whole=(v != "iu"), cidx=cidx) for _ in range(nexec)],
+                                       "c10-map-" + v, "FlatMap<%s>" % v, {"variant": v}) for v in grp], "c10-rand-" + grp[0])
+    add_trace("OrderedMapTrace", [(exe, [rand_map_actions(rnd, 250, nkeys=6, cidx=cidx) for _ in range(nexec // 2)], "c10-map-%s-km%d" % (v, km),
+                                   "FlatMap<%s,keymap=%d>" % (v, km), {"variant": v, "keymap": km}) for v, km in [("ss", 1), ("ss", 2), ("ii", 1), ("Li", 1)]],
+              "c10-rand-km")
+    chk.count_actions(po_acts)
+    chk.require_actions(["SetParamThrows"])
+
+    for v in ["Li", "iu", "tt"]:
+        add_replay(exe, hs_light if quick else allp + cover + rw[:5000], "c10-map-" + v, "FlatMap<%s>" % v, {"variant": v}, MUT_MAP)
+    for v, kms in sorted((KEYMAPS_QUICK if quick else KEYMAPS).items()):
+        for km in kms:
+            add_replay(exe, hs_light if quick else allp + cover + rw[:5000], "c10-map-%s-km%d" % (v, km), "FlatMap<%s,keymap=%d>" % (v, km),
+                       {"variant": v, "keymap": km}, MUT_MAP)
+    # an unrelated instance used between any two steps (instances must not share state)
+    for v in ["ii", "ss"]:
+        add_replay(exe, hs_light, "c10-map-%s-shadow" % v, "FlatMap<%s,interleaved-with-another-instance>" % v, {"variant": v, "shadow": 1}, MUT_MAP)
+    add_replay(exe2, hs_po["ParamObject.cfg"][1], "c10-po-shadow", "ParameterizedObject<interleaved-with-another-instance>", {"shadow": 1}, MUT_PO)
+    for v in ["ii", "ss", "tt"]:
+        add_replay(exe, hs2 if v == "tt" else without(hs2, {"InsertThrows"}), "c10-map2-" + v, "FlatMap<%s>" % v, {"variant": v}, MUT_MAP)
+    add_replay(exe, without(without(hs2, {"InsertThrows"}), WHOLE), "c10-map2-iu", "FlatMap<iu>", {"variant": "iu"}, MUT_MAP)
+    for nm in NAMEMAPS:
+        add_replay(exe2, hs_po["ParamObject.cfg"][1] if quick else hs_po["ParamObject.cfg"][0], "c10-po-nm%d" % nm,
+                   "ParameterizedObject<namemap=%d>" % nm, {"namemap": nm}, MUT_PO)
+
+    chk.cov["replayed_on"] = sorted({mo[3] for mo in meta_of if mo[0] == "replay"})
+    chk.cov["recorded_on"] = sorted({s[2] for mo in meta_of if mo[0] == "trace" for s in mo[1]})
+    res = run_jobs(jobs, procs)
+    left = 0
+    seen_distinct = {}
+    for mo, r in zip(meta_of, res):
+        if mo[0] == "replay":
+            _, histories, tag, prefix, meta, mut = mo
+            report_replay(chk, histories, r, tag, prefix, meta)
+            key = id(histories)
+            if key not in seen_distinct:
+                seen_distinct[key] = adtcheck._nontrivial_distinct(histories, mut)
+            chk.cov["distinct_nontrivial"] += seen_distinct[key]
+        else:
+            left += report_trace(chk, mo[1], r, mo[2])
+    if left:
+        chk.note("observed %d time(s): setParam<T>(new name, x) whose copy of x throws leaves a parameter WITHOUT a value under that name "
+                 "(hasParam() is true, every getParam<T>() yields the default); accepted - the statement does not say whether a failed "
+                 "insertion inserts" % left)
+    chk.cov["setparam_throw_left_valueless_parameter"] = left
+
+    chk.add_sample({"kind": "history", "object": "FlatMap", "steps": hs[len(hs) // 2]})
+    chk.add_sample({"kind": "history", "object": "ParameterizedObject", "steps": hs_po["ParamObject.cfg"][0][len(hs_po["ParamObject.cfg"][0]) // 3]})
+    chk.add_sample({"kind": "size-boundary-history", "object": "FlatMap", "boundary": big[0]["cls"], "steps": big[0]["h"][:8]})
+    chk.add_sample({"kind": "recorded-trace-prefix", "object": "ParameterizedObject", "actions": po_acts[0][:6]})
     chk.cov["rule"] = ("histories = paths of TLC's complete state graph of the bounded instance (all paths up to the budgeted length, "
                        "one shortest path per transition, seeded random walks); non-trivial = contains a state-changing action; "
-                       "distinct = distinct (action,argument) sequences, counted per concrete type variant")
+                       "distinct = distinct (action,argument) sequences, counted per concrete type variant / key map / name map")
 
 
 def do_replay(chk, path):
-    import json
     rep = json.load(open(path))
-    if rep["kind"] == "history":
-        drv = "drv_param_object" if rep["sig_prefix"].startswith("Param") else "drv_ordered_map"
-        exe = build.build(drv)
-        adtcheck.replay(chk, exe, [rep["history"]], "replay", rep["sig_prefix"], meta=rep.get("meta"))
+    po = rep["sig_prefix"].startswith("Param")
+    if po:
+        exe = build.build("drv_param_object")
     else:
-        drv = "drv_param_object" if rep["sig_prefix"].startswith("Param") else "drv_ordered_map"
-        exe = build.build(drv)
-        mod = "ParamObjectTrace" if drv == "drv_param_object" else "OrderedMapTrace"
-        adtcheck.record_and_validate(chk, exe, SPEC, mod, mod + ".cfg", [rep["actions"]], "replay", rep["sig_prefix"], meta=rep.get("meta"))
+        exe, _ = build_map_driver(chk)
+    if rep["kind"] == "history":
+        adtcheck.replay(chk, exe, [rep["history"]], "replay", rep["sig_prefix"], meta=rep.get("meta"), isolate=1)
+    else:
+        mod = rep.get("module") or ("ParamObjectTrace" if po else "OrderedMapTrace")
+        r = checked(_run_one(("trace", (mod, mod + ".cfg", [(exe, [rep["actions"]], "replay", rep.get("meta"))], "replay"))))
+        report_trace(chk, [([rep["actions"]], "replay", rep["sig_prefix"], rep.get("meta"))], r, mod)
     chk.cov["evaluations"] = max(chk.cov["evaluations"], 1)
